@@ -18,7 +18,7 @@ class Run:
         self.props.append((lines, oracle, what, tags, shrink))
         for t in tags: self.stats['prop_' + t] += 1
         if nontrivial: self.nontrivial.add(case_hash('\n'.join(lines)))
-    def execute(self, known=None):
+    def execute(self, known=None, same=None):
         """known: optional function (line, model_out, impl_out) -> finding text | None"""
         ctx, exe = self.ctx, self.ctx.drivers[self.drv]
         violations, broken, known_hits = [], [], []
@@ -26,7 +26,7 @@ class Run:
         m, i, problems = run_both(exe, lines) if lines else ([], [], [])
         mism = []
         for k in range(len(lines)):
-            if m[k] != i[k]:
+            if (m[k] != i[k]) if same is None else (not same(m[k], i[k])):
                 kf = known(lines[k], m[k], i[k]) if known else None
                 if kf: known_hits.append(kf)
                 else: mism.append((k, m[k], i[k]))
